@@ -6,6 +6,7 @@ import (
 	"encoding/json"
 	"fmt"
 	"os"
+	"sort"
 	"hash/fnv"
 	"strings"
 	"time"
@@ -34,6 +35,12 @@ type Config struct {
 	Ctx        *reg.Ctx
 	MaxExec    int64 // 0 = unlimited
 	AllowBlock bool  // threads still blocked at the end are not a violation by themselves (judge decides)
+	// Policy selects the deterministic default scheduler that deviations are counted from (db, dbc):
+	// 0 keep running the current thread, else the lowest id (the default); 1 keep running the current
+	// thread, else the highest id, data choices default to the last alternative; 2 always the lowest
+	// enabled id; 3 always the highest enabled id (newest thread first), data choices last; 4 round robin
+	// (the enabled thread following the current one in id order).
+	Policy int
 	Label      string
 }
 
@@ -104,7 +111,78 @@ func (r *runner) filterSleep(e *vsched.Exec, t int) {
 	r.sleep = ns
 }
 
-func (r *runner) PickThread(e *vsched.Exec, en []int) int {
+// order applies the default-scheduler policy: it returns the enabled threads in the order in which the
+// policy prefers them (index 0 = the default choice) and the position of each in the list vsched passed.
+func (r *runner) order(e *vsched.Exec, en []int) ([]int, []int) {
+	pol := r.x.cfg.Policy
+	if pol == 0 || len(en) < 2 {
+		return en, nil
+	}
+	n := len(en)
+	idx := make([]int, n)
+	for i := range idx {
+		idx[i] = i
+	}
+	asc := make([]int, n) // positions in ascending id order
+	copy(asc, idx)
+	sort.Slice(asc, func(a, b int) bool { return en[asc[a]] < en[asc[b]] })
+	cur := e.Last
+	var ord []int
+	switch pol {
+	case 1:
+		if en[0] == cur {
+			ord = append(ord, 0)
+		}
+		for i := n - 1; i >= 0; i-- {
+			if !(en[asc[i]] == cur && en[0] == cur) {
+				ord = append(ord, asc[i])
+			}
+		}
+	case 2:
+		ord = asc
+	case 3:
+		for i := n - 1; i >= 0; i-- {
+			ord = append(ord, asc[i])
+		}
+	default: // 4: round robin
+		for _, p := range asc {
+			if en[p] > cur {
+				ord = append(ord, p)
+			}
+		}
+		for _, p := range asc {
+			if en[p] <= cur {
+				ord = append(ord, p)
+			}
+		}
+	}
+	pen := make([]int, n)
+	for i, p := range ord {
+		pen[i] = en[p]
+	}
+	return pen, ord
+}
+
+func (r *runner) PickThread(e *vsched.Exec, en0 []int) int {
+	en, back := r.order(e, en0)
+	k := r.pickThread(e, en)
+	if k >= 0 && back != nil {
+		return back[k]
+	}
+	return k
+}
+
+func (r *runner) dataDefaultLast() bool { return r.x.cfg.Policy == 1 || r.x.cfg.Policy == 3 }
+
+func (r *runner) PickData(e *vsched.Exec, n int) int {
+	k := r.pickData(e, n)
+	if r.dataDefaultLast() {
+		return n - 1 - k
+	}
+	return k
+}
+
+func (r *runner) pickThread(e *vsched.Exec, en []int) int {
 	if len(en) == 1 {
 		if r.por && len(r.nodes) >= len(r.prefix) {
 			if contains(r.sleep, en[0]) {
@@ -148,7 +226,12 @@ func (r *runner) PickThread(e *vsched.Exec, en []int) int {
 		// default schedule continues with, deviations left); explore it once
 		extra := 0
 		if r.x.cfg.Strategy == "dbc" {
-			extra = en[0] + 1
+			switch r.x.cfg.Policy {
+			case 0, 1:
+				extra = en[0] + 1 // the future defaults depend on the current thread only through who comes first now
+			case 4:
+				extra = e.Last + 2
+			}
 		}
 		left := 0
 		if r.x.cfg.Strategy == "dbc" {
@@ -227,7 +310,7 @@ func (r *runner) PickThread(e *vsched.Exec, en []int) int {
 	return k
 }
 
-func (r *runner) PickData(e *vsched.Exec, n int) int {
+func (r *runner) pickData(e *vsched.Exec, n int) int {
 	idx := len(r.nodes)
 	sg := sigOf(true, n, nil, e)
 	nd := node{data: true, n: n, sig: sg}
@@ -629,6 +712,13 @@ func Run(cfg Config, sc Scenario) *reg.Result {
 	if ov := os.Getenv("VERIF_STRATEGY_DB"); ov != "" && cfg.Strategy == "db" && cfg.Bound > 0 {
 		cfg.Strategy = ov // experiments / cross-validation of the cached strategy against plain db
 	}
+	if cfg.Ctx != nil && cfg.Bound > 0 {
+		// job arguments understood by every scheduled part
+		cfg.Policy = cfg.Ctx.ArgInt("policy", cfg.Policy)
+		if cfg.Strategy == "db" && cfg.Ctx.Arg("cache", "") == "1" {
+			cfg.Strategy = "dbc"
+		}
+	}
 	x := &Explorer{cfg: cfg, sc: sc, Res: reg.NewResult(name), start: time.Now()}
 	res := x.Res
 	if cfg.Ctx != nil && cfg.Ctx.Replay != nil {
@@ -738,6 +828,7 @@ func Run(cfg Config, sc Scenario) *reg.Result {
 		res.Bound = fmt.Sprintf("db(%d) completed (all executions with at most %d deviations from the default schedule); target db(%d)", completed, completed, cfg.Bound)
 		res.Notes["db_completed"] = completed
 		res.Notes["db_target"] = cfg.Bound
+		res.Notes["policy"] = cfg.Policy
 		if cfg.Strategy == "dbc" {
 			res.Notes["hb_states"] = len(x.visited)
 			res.Notes["hb_pruned"] = x.Pruned
